@@ -203,7 +203,7 @@ func runCheck(repo, verif, prop, tier string, seed int, updateExpected, verbose 
 	if b, err := os.ReadFile(hintPath); err == nil {
 		json.Unmarshal(b, &solverHints)
 	}
-	timeout := 40
+	timeout := 100
 	if tier == "thorough" {
 		timeout = 300
 	}
